@@ -1,6 +1,8 @@
 # C01 — export -> file -> read returns exactly the records that were buffered (library reader and independent reader).
 import common, schema, histgen, p_hist
-THEOREMS = ["C01_block_bytes_roundtrip", "C01_records_kept", "C01_index_denotes", "C01_statistics", "C01_aec_totals", "C01_nonvacuous"]
+THEOREMS = ["C01_block_bytes_roundtrip", "C01_records_kept", "C01_index_denotes", "C01_statistics", "C01_aec_totals", "C01_decode_inverts_build",
+            "C01_decode_inverts_build_mm", "C01_decode_aec_key", "C01_block_reads_back", "C01_view_is_log", "C01_end_to_end", "C01_hypotheses_decidable",
+            "C01_end_to_end_nonvacuous", "C01_nonvacuous"]
 def gen_cases(sch, tier, rng):
     cases = []
     n = 150 if tier == "quick" else 5000
@@ -19,9 +21,13 @@ def run(ctx):
     sch = schema.load(ctx["mdl"])
     cases = gen_cases(sch, ctx["tier"], ctx["rng"])
     diffs, cases = p_hist.run_histories(ctx, cases, batch=6)
+    prem = p_hist.theorem_check(ctx, cases, "C01")
+    ctx["report"].cov["end_to_end_theorem_premises"] = prem
     return p_hist.finish(ctx, "C01", cases, diffs,
         "random exporter histories: 1-3 parameter sets with random / default / single-bit-cleared hint masks, tick rates 1..10^9, "
         "max_block_items 0..10000, records with every optional-member subset, boundary integers of each width, byte strings incl. NUL, "
         "repeated and distinct table values, RR lists, statistics; plus files of several decoder windows with 70000-byte names. Each output is "
         "read by an independent Python RFC 8949/8618 reader and by the library's reader; both must return the submitted records after hint "
-        "filtering, in order, AEC totals per key, statistics most recently supplied", related=("C17", "C09", "C05"))
+        "filtering, in order, AEC totals per key, statistics most recently supplied; and the records the library's reader returns must equal "
+        "log_qr / log_mm, the right-hand side of C01_end_to_end evaluated by the extracted model, on every history satisfying the theorem's hypotheses "
+        "(admb, typed_xb evaluated by the model too)", related=("C17", "C09", "C05"))
